@@ -13,7 +13,7 @@ def import_medit(path):
     obj = RawMeshData()
     data = deque()
     with open(path, 'r' ) as meditf:
-        data = deque([x.strip() for x in meditf.readlines()])
+        data = deque([x.strip() for x in meditf.readlines() if x.strip()]) # ignore blank lines
                 
     while data:
         line = data.popleft()
